@@ -116,7 +116,10 @@ where
 
         let mut polynomial_iterator = polynomial.iter();
 
-        (0..points.len()).for_each(|_| {
+        // A polynomial with fewer coefficients than points is its own remainder:
+        // pad the (big-endian) state with leading zeros.
+        (polynomial.len()..points.len()).for_each(|_| state.push_back(E::ScalarField::zero()));
+        (0..points.len().min(polynomial.len())).for_each(|_| {
             state.push_back(*polynomial_iterator.next().unwrap().borrow());
         });
 
